@@ -1,16 +1,48 @@
 package main
 
 import (
+	"bytes"
+	"encoding/hex"
+	"encoding/json"
 	"fmt"
+	"os"
 
-	"github.com/google/pprof/internal/symbolizer"
+	"github.com/google/pprof/internal/zzverif/vlib"
 	"github.com/google/pprof/profile"
 )
 
 func main() {
-	p := &profile.Profile{Function: []*profile.Function{{ID: 3, Name: "(a::b)", SystemName: "(a::b)"}, {ID: 1, Name: "named", SystemName: ""}}}
-	symbolizer.Demangle(p, false, "")
-	fmt.Printf("%q %q\n", p.Function[0].Name, p.Function[1].Name)
-	symbolizer.Demangle(p, true, "full")
-	fmt.Printf("%q %q\n", p.Function[0].Name, p.Function[1].Name)
+	var r struct {
+		Case struct {
+			Hex string `json:"hex"`
+		} `json:"case"`
+	}
+	b, _ := os.ReadFile(os.Args[1])
+	json.Unmarshal(b, &r)
+	data, _ := hex.DecodeString(r.Case.Hex)
+	fmt.Printf("%d bytes\n%s\n", len(data), string(data[:min(len(data), 400)]))
+	p, err := profile.ParseData(data)
+	fmt.Println("parse:", err)
+	if err != nil {
+		return
+	}
+	var w bytes.Buffer
+	p.Copy().WriteUncompressed(&w)
+	q, err := profile.ParseUncompressed(w.Bytes())
+	fmt.Println("reparse:", err)
+	a, c := vlib.ProjectFull(p), vlib.ProjectFull(q)
+	fmt.Println("equal:", a.Equal(c))
+	ja, _ := json.Marshal(a)
+	jc, _ := json.Marshal(c)
+	for i := 0; i < len(ja) && i < len(jc); i++ {
+		if ja[i] != jc[i] {
+			lo := i - 200
+			if lo < 0 {
+				lo = 0
+			}
+			fmt.Printf("first diff at %d:\nA: %s\nB: %s\n", i, ja[lo:min(i+200, len(ja))], jc[lo:min(i+200, len(jc))])
+			break
+		}
+	}
+	fmt.Println(len(ja), len(jc))
 }
